@@ -6,48 +6,152 @@
 (* accumulated in `viol` and printed at the end as <<"VERDICT", ...>>.     *)
 (* The walk can never get stuck: a monitor failure is data, not deadlock.  *)
 (***************************************************************************)
-EXTENDS BrokerMon, Json, IOUtils, SequencesExt
+EXTENDS Broker, Json, IOUtils
 
 Rec == ndJsonDeserialize(IOEnv.TRACE)
 N == Len(Rec)
 
+DefaultConfigVal == [compression |-> "disabled", mmt |-> 10800, mbt |-> 10000, si |-> 500, sc |-> 16]
+
+-----------------------------------------------------------------------------
+(* L2: refinement of the Broker design spec.  The recorded store is mapped  *)
+(* into the spec's shape and every recorded transition must be one of the   *)
+(* outcomes the spec allows; every recorded view must equal the spec's      *)
+(* view function applied to the recorded store.                             *)
+
+FromRec(R) ==
+    [gepoch |-> R.gepoch, ordered |-> R.ordered,
+     proxies |-> [a \in {R.proxies[i].addr : i \in DOMAIN R.proxies} |->
+                    LET p == R.proxies[CHOOSE i \in DOMAIN R.proxies : R.proxies[i].addr = a] IN
+                    [host |-> p.host, index |-> p.index, cluster |-> p.cluster, nodes |-> p.nodes]],
+     failed |-> Range(R.failed),
+     failures |-> [a \in {R.failures[i].addr : i \in DOMAIN R.failures} |->
+                    LET f == R.failures[CHOOSE i \in DOMAIN R.failures : R.failures[i].addr = a] IN
+                    {f.reports[j].rep : j \in DOMAIN f.reports}],
+     clusters |-> [n \in {R.clusters[i].name : i \in DOMAIN R.clusters} |->
+                    LET c == R.clusters[CHOOSE i \in DOMAIN R.clusters : R.clusters[i].name = n] IN
+                    [epoch |-> c.epoch, config |-> c.config, chunks |-> c.chunks]]]
+
+PairsOf(chunks) == [i \in DOMAIN chunks |-> <<chunks[i].px[1], chunks[i].px[2]>>]
+
+\* accept an allocation op: `code` is the spec's refusal, Do the deterministic effect for given pairs
+AcceptAlloc(S, T, res, code, newChunks, firstIndex, Do(_)) ==
+    IF code # "" THEN res = code /\ T = S
+    ELSE /\ res = "OK"
+         /\ LET pairs == PairsOf(newChunks) IN AllocAccept(S, pairs, firstIndex) /\ T = Do(pairs)
+
+NewChunksOf(S, T, name) ==
+    IF name \in ClusterNames(T)
+    THEN LET old == IF name \in ClusterNames(S) THEN Len(S.clusters[name].chunks) ELSE 0
+             chs == T.clusters[name].chunks
+         IN IF Len(chs) >= old THEN SubSeq(chs, old + 1, Len(chs)) ELSE <<>>
+    ELSE <<>>
+
+AcceptAddNodes(S, T, res, name, n) ==
+    AcceptAlloc(S, T, res, AddNodesCode(S, name, n), NewChunksOf(S, T, name),
+                IF name \in ClusterNames(S) THEN Len(S.clusters[name].chunks) * 2 ELSE 0,
+                LAMBDA pairs : AddNodesDo(S, name, pairs))
+AcceptScaleUpTo(S, T, res, name, n) ==
+    LET code == ScaleUpToCode(S, name, n) IN
+    IF code # "" THEN res = code /\ T = S
+    ELSE AcceptAddNodes(S, T, res, name, n - Len(S.clusters[name].chunks) * 4)
+
+NumericKeys == [migration_max_migration_time |-> "mmt", migration_max_blocking_time |-> "mbt",
+                migration_scan_interval |-> "si", migration_scan_count |-> "sc"]
+ConfigAccept(S, T, res, name, key, value) ==
+    IF name \notin ClusterNames(S) THEN res = "CLUSTER_NOT_FOUND" /\ T = S
+    ELSE IF IsMigrating(S.clusters[name]) THEN res = "MIGRATION_RUNNING" /\ T = S
+    ELSE LET old == S.clusters[name].config
+             new == IF name \in ClusterNames(T) THEN T.clusters[name].config ELSE old
+             okCompression == key = "compression_strategy" /\ value \in {"disabled", "set_get_only", "allow_all"}
+                              /\ new = [old EXCEPT !.compression = value]
+             okNumeric == key \in DOMAIN NumericKeys
+                          /\ new = [old EXCEPT ![NumericKeys[key]] = new[NumericKeys[key]]]
+                          /\ ToString(new[NumericKeys[key]]) = value
+                          /\ (key = "migration_scan_count" => new.sc # 0)
+         IN IF res = "OK" THEN (okCompression \/ okNumeric) /\ <<"OK", T>> \in ChangeConfig(S, name, TRUE, new)
+            ELSE res = "INVALID_CONFIG" /\ T = S /\ ~okCompression
+                 /\ ~(key \in DOMAIN NumericKeys /\ value \in {"32", "5000"})
+
+Allowed(e, pre, base) ==
+    LET S == FromRec(pre.S)  T == FromRec(e.S)  a == e.args  res == e.res  op == e.op IN
+    CASE op = "AddProxy" -> <<res, T>> \in AddProxy(S, a.addr, a.host, a.index, a.nodes)
+      [] op = "RemoveProxy" -> <<res, T>> \in RemoveProxy(S, a.addr)
+      [] op = "AddCluster" ->
+            AcceptAlloc(S, T, res, AddClusterCode(S, a.name, a.n), NewChunksOf(S, T, a.name), 0,
+                        LAMBDA pairs : AddClusterDo(S, a.name, pairs))
+      [] op = "RemoveCluster" -> <<res, T>> \in RemoveCluster(S, a.name)
+      [] op = "AddNodes" -> AcceptAddNodes(S, T, res, a.name, a.n)
+      [] op = "ScaleUpTo" -> AcceptScaleUpTo(S, T, res, a.name, a.n)
+      [] op = "MigrateSlots" -> <<res, T>> \in MigrateSlots(S, a.name)
+      [] op = "ScaleDown" -> <<res, T>> \in ScaleDown(S, a.name, a.n)
+      [] op = "DeleteFree" -> <<res, T>> \in DeleteFree(S, a.name)
+      [] op = "Commit" -> <<res, T>> \in Commit(S, a.name, [rl |-> a.task.rl, tag |-> a.task.tag, epoch |-> a.task.meta.epoch])
+      [] op = "Failover" -> \E o \in Failover(S, a.addr, FALSE) : o[1] = res /\ o[2] = T /\ o[3] = e.out.replaced
+      [] op = "Balance" -> <<res, T>> \in Balance(S, a.name)
+      [] op = "ChangeConfig" -> ConfigAccept(S, T, res, a.name, a.key, a.value)
+      [] op = "AddFailure" -> <<res, T>> \in AddFailure(S, a.addr, a.reporter)
+      [] op = "GetFailures" ->
+            /\ DOMAIN T.failures \subseteq DOMAIN S.failures
+            /\ \A x \in DOMAIN T.failures : T.failures[x] \subseteq S.failures[x]
+            /\ LET expired == UNION {{<<x, r>> : r \in S.failures[x] \ (IF x \in DOMAIN T.failures THEN T.failures[x] ELSE {})}
+                                       : x \in DOMAIN S.failures}
+                   g == GetFailures(S, expired, a.quorum)
+               IN g[1] = Range(e.out.failures) /\ g[2] = T
+      [] op = "AgeFailures" -> T = S
+      [] op = "CheckResource" -> T = S
+      [] op = "ForceBump" -> <<res, T>> \in ForceBump(S, a.epoch)
+      [] op = "RecoverEpoch" -> <<res, T>> \in RecoverEpoch(S, a.max_proxy_epoch)
+      [] op = "AutoScale" ->
+            IF a.name \notin ClusterNames(S) THEN res = "CLUSTER_NOT_FOUND" /\ T = S
+            ELSE IF IsMigrating(S.clusters[a.name]) THEN res = "MIGRATION_RUNNING" /\ T = S
+            ELSE LET S1 == IF DeleteFreeCode(S, a.name) = "" THEN DeleteFreeDo(S, a.name) ELSE S
+                     existing == Len(S1.clusters[a.name].chunks) * 4
+                 IN IF existing = a.n THEN res = "OK" /\ T = S1
+                    ELSE IF existing < a.n
+                    THEN \* scale-out: the service then waits for the proxies; none is reachable in the harness
+                         AcceptScaleUpTo(S1, T, IF res = "PROXY_NOT_SYNC" THEN "OK" ELSE res, a.name, a.n)
+                         /\ res # "OK"
+                    ELSE <<res, T>> \in ScaleDown(S1, a.name, a.n)
+      [] op = "RestartFrom" ->
+            IF a.at = 0 THEN TRUE ELSE T = FromRec(Rec[base + a.at - 1].S)
+      [] op = "Init" -> T = [gepoch |-> 0, ordered |-> a.ordered, proxies |-> <<>>, failed |-> {},
+                             failures |-> <<>>, clusters |-> <<>>]
+      [] OTHER -> FALSE
+
+\* recorded views = spec views of the recorded store
+ViewsAgree(e) ==
+    LET T == FromRec(e.S) IN
+    \A v \in DOMAIN e.obs.views :
+        LET lim == e.obs.views[v].limit  cs == e.obs.views[v].clusters  ps == e.obs.views[v].proxies
+            av == AllViews(T, lim) IN
+        /\ {cs[i].name : i \in DOMAIN cs} = ClusterNames(T)
+        /\ \A i \in DOMAIN cs : cs[i] = av.clusters[cs[i].name]
+        /\ {ps[i].addr : i \in DOMAIN ps} = Addrs(T)
+        /\ \A i \in DOMAIN ps : ps[i] = av.proxies[ps[i].addr]
+
+L2(e, pre, base) ==
+    (IF Allowed(e, pre, base) THEN {} ELSE {"L2.transition"}) \cup
+    (IF ViewsAgree(e) THEN {} ELSE {"L2.views"}) \cup
+    (IF e.obs.check = CheckMetadata(FromRec(e.S)) THEN {} ELSE {"L2.check"})
+
 VARIABLES l,      \* next line to consume
           hist,   \* C04 history: [limit -> [addr -> [epoch, content]]]
           gprev,  \* last global epoch
-          viol    \* set of <<line, monitor id>>
+          viol,   \* set of <<line, monitor id>>          (L1: property monitors)
+          div,    \* set of <<line, reason>>              (L2: divergence from the Broker spec)
+          base    \* line of the last "Init" (start of the current trace inside a shard)
 
-vars == <<l, hist, gprev, viol>>
+vars == <<l, hist, gprev, viol, div, base>>
 
-Limits == {0, 1, 2}
-EmptyHist == [lim \in Limits |-> <<>>]
-
-ResetOps == {"Init", "RestartFrom"}
 
 Init ==
     /\ l = 1
     /\ hist = EmptyHist
     /\ gprev = 0
     /\ viol = {}
-
-NewHist(h, obs) ==
-    [lim \in Limits |-> HistUpdate(h[lim], ViewAt(obs, lim).proxies)]
-
-StateMon(e) ==
-    C01_Obs(e.obs) \cup C06_State(e.obs) \cup C10_State(e.S) \cup C12_State(e.S, e.obs.check, e.res)
-
-EventMon(pre, e) ==
-    LET op == e.op IN
-    C10_Event(op, e.args, e.res, pre.S, e.S, pre.obs) \cup
-    C12_Event(op, e.args, e.res, e.out, pre.S, e.S) \cup
-    C18_Event(op, e.args, e.res, e.out, pre.S, e.S) \cup
-    (IF op \notin ResetOps /\ op # "AgeFailures" THEN C06_Allocation(pre.S, e.S) ELSE {}) \cup
-    (IF op = "Failover" /\ e.res \in {"OK", "NO_AVAILABLE_RESOURCE"}
-        /\ ProxyCluster(pre.S, e.args.addr) # ""
-        /\ HasCV(pre.obs, 0, ProxyCluster(pre.S, e.args.addr))
-        /\ HasCV(e.obs, 0, ProxyCluster(pre.S, e.args.addr))
-     THEN C06_Failover(pre.S, CVOf(pre.obs, 0, ProxyCluster(pre.S, e.args.addr)),
-                       e.S, CVOf(e.obs, 0, ProxyCluster(pre.S, e.args.addr)), e.args.addr)
-     ELSE {})
+    /\ div = {}
+    /\ base = 1
 
 Step ==
     /\ l <= N
@@ -58,11 +162,16 @@ Step ==
            found == StateMon(e) \cup C04_Obs(h0, g0, e.S, e.obs)
                     \cup (IF reset \/ l = 1 THEN {} ELSE EventMon(Rec[l-1], e))
        IN /\ viol' = viol \cup {<<l, m>> : m \in found}
+          /\ base' = IF e.op = "Init" THEN l ELSE base
+          /\ div' = div \cup {<<l, r>> : r \in (IF l = 1 \/ e.op = "Init"
+                                                  THEN (IF ViewsAgree(e) THEN {} ELSE {"L2.views"})
+                                                  ELSE L2(e, Rec[l-1], base))}
           /\ hist' = NewHist(h0, e.obs)
           /\ gprev' = e.S.gepoch
     /\ l' = l + 1
     /\ (l = N) => JsonSerialize(IOEnv.OUT,
-                     [n |-> N, viol |-> SetToSeq({[line |-> v[1], mon |-> v[2]] : v \in viol'})])
+                     [n |-> N, viol |-> SetToSeq({[line |-> v[1], mon |-> v[2]] : v \in viol'}),
+                      div |-> SetToSeq({[line |-> v[1], mon |-> v[2]] : v \in div'})])
 
 Next == Step
 
